@@ -161,7 +161,16 @@ def lp_eval(pinp, pmap, lines):
     if not pinp:
         return lp
     sdriver = common.build_driver("shift")
-    pout, _, _ = common.run_both([sdriver], None, pinp, chunk=500)
+    # run_both cuts the list into contiguous chunks; the records of the 2^31 streams (600..1300 nets) cost seconds each in the
+    # model, the ordinary ones a fraction of a millisecond: deal the records to the chunks heaviest first, results back in order
+    n = len(pinp)
+    nchunks = max(1, min(common.NCPU, n // 100 + 1))
+    order = sorted(range(n), key=lambda j: -len(pinp[j]))
+    perm = [j for k in range(nchunks) for j in order[k::nchunks]]
+    pperm, _, _ = common.run_both([sdriver], None, [pinp[j] for j in perm], chunk=100)
+    pout = [None] * n
+    for j, o in zip(perm, pperm):
+        pout[j] = o
     for (i, k), rec, o in zip(pmap, pinp, pout):
         head, _, detail = o.partition("|")
         try:
